@@ -128,7 +128,6 @@ def jobs(tier):
 def main(tier):
     js = jobs(tier)
     # built in two stages with a throw-away solve in between: state left in the problem / tasks by an earlier solver
-    js += common.staged([j for j in js if j["family"].startswith(("pair", "with/"))], stride=2 if tier == "quick" else 1, kinds=("solve", "init"),
-                        cuts="alt" if tier == "quick" else "all")
+    js += common.staged([j for j in js if j["family"].startswith(("pair", "with/"))], stride=2 if tier == "quick" else 1, kinds=("solve", "init"))
     return common.run_space_check("C01", tier, js, RULE, ASSUME,
                                   budget_s=480 if tier == "quick" else 3000)
